@@ -17,7 +17,7 @@ INV = {
     "C08": ["C08_Qualifier", "C08_Preference", "C08_Independent"],
     "C10": ["C10_Status", "C10_Point"],
 }
-MON_EXTRA = {"C06": ["M_FieldsSound"], "C07": [], "C08": [], "C10": ["M_C10_SameOutcome"]}
+MON_EXTRA = {"C06": ["M_FieldsSound"], "C07": ["C10_Status"], "C08": [], "C10": ["M_C10_SameOutcome"]}      # C07: the named component is found whenever it exists
 
 H3 = "{9, 10, 11}"
 MC_FAMS = {
